@@ -2,7 +2,7 @@
 From Coq Require Import Lia.
 From V.Model Require Import Base Templates Conv ConvSpec.
 From V.Gen Require Import GenSrc.
-From V.Proofs Require Import TemplatesProofs SrcObligationsGen ClassRoundtrip ConvSound ConvRoundtrip ConvCfg.
+From V.Proofs Require Import TemplatesProofs SrcObligationsGen ClassRoundtrip ConvSound ConvRoundtrip ConvAgree ConvCfg.
 
 (* 1. Class level, structuring.  For every payload value type, every class whose attributes are all
       __init__ arguments (any number / order / mix of required, defaulted, kw_only, aliased attributes,
@@ -53,12 +53,26 @@ Proof.
 Qed.
 Print Assumptions C06_class_unstructure_agreement.
 
-(* 3. Nested, what the two theorems of C01 / C02 give for the pair of converters: on the unstructured
-      form of any value of T both classes return that value (hence the same result), and on ANY input each
-      returns, if anything, a value conforming to T.  Agreement on arbitrary mapping-shaped invalid input
-      below class level is decided by the correspondence lane and the pairwise oracle, not by a theorem
-      (C06 is claimed _partial_ in that respect). *)
-Theorem C06_nested_agree_on_valid_payloads_partial :
+(* 3. Nested.  For EVERY environment of classes (attributes all __init__ arguments) and enums, every type
+      expression of the nested universe, every amount of fuel and EVERY input whose class positions hold
+      mappings ([shaped]: at each class position the walk reaches the payload is a dict; no Annotated, which
+      BaseConverter has no hook for): Converter in either validation mode and BaseConverter in either
+      validation mode both reject the input or both accept it with the same result. *)
+Theorem C06_nested_classes_agree :
+  forall (E : env) (dv1 dv2 : bool),
+    (forall c cd, e_class E c = Some cd ->
+       wf val (topt (mk_cfg true dv1 false false) c) nov (cd_fields cd) /\ (forall f, In f (cd_fields cd) -> f_init f = true)) ->
+    forall (n : nat) (t : ty) (o : val),
+      shaped E n t o ->
+      to_opt (structure E (mk_cfg true dv1 false false) n t o) = to_opt (structure E (mk_cfg false dv2 false false) n t o).
+Proof.
+  intros E dv1 dv2 Henv n t o Hs.
+  apply structure_agree; [reflexivity | reflexivity | reflexivity | reflexivity | apply mk_cfg_recheck | apply mk_cfg_recheck | apply mk_cfg_kw_last | apply mk_cfg_kw_last | exact Henv | right; exact Hs].
+Qed.
+Print Assumptions C06_nested_classes_agree.
+
+(* ... in particular on the unstructured form of any value of T both classes return that value: *)
+Theorem C06_nested_agree_on_valid_payloads :
   forall (E : env) (dvU dv1 dv2 : bool),
     (forall p e, e_coerce E p (VAtom p e) = Ok (VAtom p e)) ->
     (forall c cd, e_class E c = Some cd -> rt_class_ok (mk_cfg true dv1 false false) c cd) ->
@@ -77,7 +91,7 @@ Proof.
       [reflexivity | reflexivity | reflexivity | reflexivity | reflexivity | apply mk_cfg_recheck | apply mk_cfg_kw_last | discriminate | exact Hc | exact H2 | exact Hrt | exact Hu]. }
   now rewrite R1, R2.
 Qed.
-Print Assumptions C06_nested_agree_on_valid_payloads_partial.
+Print Assumptions C06_nested_agree_on_valid_payloads.
 
 (* the full statement is false outside the mapping-shaped inputs the property names: a list payload at
    a class position is accepted by the generated hook of an all-defaults class ('a' in [..] is False for
